@@ -61,6 +61,10 @@ def _kind(kind):
     if kind == "data_arrays":
         other.create_data_array("b", "t", data=[1.0])
         return f, (lambda n: blk.create_data_array(n, "t", data=[1.0])), (lambda: f.blocks["blk"].data_arrays)
+    if kind == "data_frames":
+        other.create_data_frame("b", "t", col_names=["c"], col_dtypes=[int])
+        return f, (lambda n: blk.create_data_frame(n, "t", col_names=["c"], col_dtypes=[int], data=[(1,)])), \
+            (lambda: f.blocks["blk"].data_frames)
     if kind == "tags":
         return f, (lambda n: blk.create_tag(n, "t", [1.0])), (lambda: f.blocks["blk"].tags)
     if kind == "multi_tags":
@@ -86,7 +90,7 @@ def _kind(kind):
     raise KeyError(kind)
 
 
-KINDS = ["blocks", "sections", "subsections", "properties", "data_arrays", "tags", "multi_tags",
+KINDS = ["blocks", "sections", "subsections", "properties", "data_arrays", "data_frames", "tags", "multi_tags",
          "groups", "sources", "subsources", "group_links"]
 
 
